@@ -3,7 +3,7 @@ import collections
 
 from .base import Monitor, viol, common_stats, pos_diff, sample_of
 from ..e2e import run_case, TOL
-from ..gen import gen_program, gen_exact_case, exhaustive_case, exhaustive_total, gen_regions
+from ..gen import fmt, gen_program, gen_exact_case, exhaustive_case, exhaustive_total, gen_regions
 from ..harness import depth_in, border_eps, DEFAULT_AT
 
 ETOL = 1e-9
@@ -391,7 +391,8 @@ class C01(MotionMonitor):
                                     spell=True, g92e_retracted=True)),
                (1.5, "exact-border", {}), (1.5, "arcs-under-g91", mk(rel=True, arcs=True, arcs_rel=True)),
                (1.5, "g90-influences-extruder", mk(rel=True, arcs=True, at=True, g90e=True)),
-               (1, "g90-influences-extruder-inch", mk(rel=True, inch=True, g90e=True, p_inside=0.5))]
+               (1, "g90-influences-extruder-inch", mk(rel=True, inch=True, g90e=True, p_inside=0.5)),
+               (1, "firmware-unmatched", mk(fw=True, fw_stray=True, p_inside=0.5))]
 
     def settings_for(self, rnd, feats):
         s = MotionMonitor.settings_for(self, rnd, feats)
@@ -466,7 +467,8 @@ class C04(ExtrusionMonitor):
     classes = [(3, "e-only", mk(arcs=True)), (2, "e-only-inch", mk(inch=True)), (2, "e-only-rel-xyz", mk(rel=True)),
                (2, "firmware", mk(fw=True, inch=True)), (2, "g92e-while-retracted", mk(g92e_retracted=True, g92e_entry=True, p_inside=0.5)),
                (1, "at", mk(at=True)), (1, "addregion", mk(addregion=True)),
-               (2, "spelled", mk(arcs=True, rel=True, spell=True, p_inside=0.5))]
+               (2, "spelled", mk(arcs=True, rel=True, spell=True, p_inside=0.5)),
+               (1.5, "arcs-under-g91", mk(rel=True, arcs=True, arcs_rel=True, p_arc=0.1, start_rel=0.5))]
 
     def oracle(self, tr, stats, case):
         return oracle_c04(tr, stats)
@@ -503,7 +505,50 @@ class C05(ExtrusionMonitor):
                (1, "relative-extrusion-firmware", mk(rel=True, g90e=True, fw=True, p_inside=0.5)),
                (1.5, "relative-extrusion-inch", mk(rel=True, inch=True, g90e=True, p_inside=0.5, g92e_retracted=True)),
                (1, "e-only-arcs", mk(arcs=True)), (2, "spelled", mk(spell=True, rel=True, p_inside=0.5)),
-               (1, "spelled-firmware", mk(spell=True, fw=True, p_inside=0.5))]
+               (1, "spelled-firmware", mk(spell=True, fw=True, p_inside=0.5)),
+               (2, "e-word-on-every-line", mk(p_esame=0.7, p_inside=0.5, g92e_retracted=True)),
+               (2, "e-word-on-every-line-free-values", mk(p_esame=0.7, p_inside=0.6, egrid=False))]
+
+    def gen_case(self, rnd, tier, k):
+        if self.ex_index(k, tier) is None and rnd.random() < 0.06:
+            return self.scenario_owed_recovery(rnd)
+        return ExtrusionMonitor.gen_case(self, rnd, tier, k)
+
+    @staticmethod
+    def scenario_owed_recovery(rnd):
+        """A retraction performed by the filter inside a region, the matching recovery swallowed in a later episode, and in between
+        travel moves that carry the file's current E value (slicers that write every word on every line); arbitrary E values."""
+        x1, y1 = rnd.randint(15, 30), rnd.randint(15, 30)
+        reg = ["rect", float(x1), float(y1), float(x1 + rnd.randint(6, 15)), float(y1 + rnd.randint(6, 15)), "r0"]
+        inside = lambda: (fmt(rnd.uniform(reg[1] + 1, reg[3] - 1), 2), fmt(rnd.uniform(reg[2] + 1, reg[4] - 1), 2))   # noqa: E731
+        outside = lambda: (fmt(rnd.uniform(1, 12), 2), fmt(rnd.uniform(1, 55), 2))                                    # noqa: E731
+        ret = rnd.choice([3.048, 0.8, 1.0, 2.5, 6.5, 0.35])
+        e1 = round(rnd.uniform(0.5, 400), rnd.choice([2, 3, 4, 5]))
+        if rnd.random() < 0.6:
+            # shortly after a "G92 E0": the retracted coordinate is small compared with the retraction length (and may be negative)
+            e1 = round(ret + rnd.uniform(-0.9 * ret, 1.5), rnd.choice([2, 3, 4, 5]))
+        nd = 5
+        w = lambda v: fmt(v, nd)       # noqa: E731
+        eret = float(w(e1 - ret))
+        steps = [["g", "G28"], ["g", "G1 X%s Y%s Z0.2 F1200" % outside()], ["g", "G1 X%s Y%s E%s" % (outside() + (w(e1),))]]
+        g = lambda c: steps.append(["g", c])    # noqa: E731
+        rep = lambda: (" E" + w(eret)) if rnd.random() < 0.8 else ""      # noqa: E731
+        g("G0 X%s Y%s F6000" % inside())
+        g("G1 E%s F2400" % w(eret))
+        early = rnd.random() < 0.3        # an E word on the moves inside / on the way out re-bases the tracked value exactly
+        for _ in range(rnd.randint(0, 2)):
+            g("G0 X%s Y%s%s" % (inside() + (rep() if early else "",)))
+        g("G0 X%s Y%s%s" % (outside() + (rep() if early else "",)))
+        for _ in range(rnd.randint(1, 3)):
+            g("G0 X%s Y%s%s" % (outside() + (rep(),)))
+        g("G0 X%s Y%s%s" % (inside() + (rep(),)))
+        g("G1 E%s F2400" % w(e1))
+        g("G0 X%s Y%s" % outside())
+        e2 = e1
+        for _ in range(rnd.randint(1, 3)):
+            e2 = float(w(e2 + rnd.uniform(0.2, 2)))
+            g("G1 X%s Y%s E%s" % (outside() + (w(e2),)))
+        return dict(cls="scenario-owed-recovery", settings=dict(g90e=False, enter=None, exit=None), regions=[reg], steps=steps, tags=[])
 
     def oracle(self, tr, stats, case):
         return oracle_c05(tr, stats, bool(case.get("fw")))
